@@ -696,6 +696,11 @@ impl Interp {
             Event::RestartCluster => {
                 self.w.fault("graceful restart of the whole cluster");
                 let ids: Vec<u32> = self.w.nodes.keys().copied().collect();
+                // every node gets the shutdown signal at the same instant (an operator stopping the cluster); the
+                // individual stops below then only wait for each node's own shutdown work
+                for n in self.w.nodes.values() {
+                    let _ = n.shutdown_tx.send(());
+                }
                 for id in &ids {
                     self.w.stop_node(*id).await;
                 }
@@ -819,6 +824,9 @@ impl Interp {
 
     /// Invariants that need live access to the nodes (C04 log matching, C05 committed entries).
     fn checkpoint(&mut self) {
+        if self.res.checkpoint_violations.len() >= 8 {
+            return; // enough evidence recorded (runs that continue after a violation)
+        }
         let mut logs: BTreeMap<u32, BTreeMap<u64, (u64, Vec<u8>)>> = BTreeMap::new();
         for (id, n) in &self.w.nodes {
             let first = n.raft_log.first_entry_id();
@@ -1059,6 +1067,10 @@ pub fn run_scenario(sc: &Scenario) -> RunResult {
         tokio::time::sleep(Duration::from_millis(sc.warmup_ms as u64)).await;
         it.checkpoint();
             it.sample_membership().await;
+        // A checkpoint (C04/C05/C33) violation ends the run at once — except in the durability family (final
+        // reads), whose oracle is the client-visible history: there the run continues so that the consequences of,
+        // say, a log that lost acknowledged entries reach the reads.
+        let stop_on_checkpoint = !sc.final_reads;
         for step in sc.steps.clone() {
             tokio::time::sleep(Duration::from_millis(step.dt_ms as u64)).await;
             it.apply_event(&step.ev).await;
@@ -1066,7 +1078,7 @@ pub fn run_scenario(sc: &Scenario) -> RunResult {
             tokio::task::yield_now().await;
             it.checkpoint();
             it.sample_membership().await;
-            if !it.res.checkpoint_violations.is_empty() {
+            if stop_on_checkpoint && !it.res.checkpoint_violations.is_empty() {
                 break;
             }
         }
@@ -1088,7 +1100,7 @@ pub fn run_scenario(sc: &Scenario) -> RunResult {
             waited += 50;
             it.checkpoint();
             it.sample_membership().await;
-            if !it.res.checkpoint_violations.is_empty() {
+            if stop_on_checkpoint && !it.res.checkpoint_violations.is_empty() {
                 break;
             }
         }
@@ -1145,7 +1157,7 @@ pub fn run_scenario(sc: &Scenario) -> RunResult {
                 }
             }
         }
-        if sc.final_reads && it.res.checkpoint_violations.is_empty() {
+        if sc.final_reads {
             if let Some(l) = it.believed_leader() {
                 for k in 0..4u8 {
                     it.submit_read(l, key_bytes(k), 1, true);
